@@ -22,7 +22,6 @@ def queries(tier, prop='C03'):
     for fl in ((0, 2) if not ub else (0,)):
         for e in ALL:
             q = dict(entry='q_f_' + e, cfg={'FLAV': fl}, unwind=24, unwindset=UW, budget=120 if tier == 'quick' else 600, ub=ub, nofunc=ub)
-            if e == 'swap_self': q['kf_only'] = 'C03_inplace_function_self_swap'   # the whole query lies inside the known-finding region
             out.append(q)
     for q_ in out:
         q_['lazy_trace'] = True   # verdict first, counterexample trace only when an obligation fails (engine/runner.py)
